@@ -4,7 +4,10 @@ A failure is reported as KNOWN-FINDING only if the entry's syntactic preconditio
 both hold.  Everything else stays a VIOLATION.  Findings are keyed by mechanism, never by seed / hash / values.
 
 K05  rows missing only while result caching is enabled, caused by the cache index hiding a stored entry (K20):
-       precondition : the failure is 'rows missing' (no extra rows, no exception, no wrong multiplicity)
+       precondition : the failure is 'rows missing' (no extra rows, no exception, no wrong multiplicity) of a plain condition
+                      query over >= 3 variables (every one of the 68 occurrences collected on the unchanged tree in three
+                      thorough sweeps has 3 or 4 variables and none is a flatten / for_all-only / rule / nested query; a
+                      seeded "negative caching" change produces the same signature in 2-variable and flatten queries)
        attribution  : the same case rebuilt fresh with caching DISABLED equals the oracle, AND the caching-enabled run
                       shows >= 1 retrieve call whose answer equals the K20 deviation model (and none that equals neither
                       the specification nor the deviation model), AND with caching enabled and IndexedCache.retrieve
@@ -26,7 +29,10 @@ def _only_missing(kind):
     return kind == "SET:missing"
 
 
-def attribute(failure, run, expected_rows, *, mentioned_not_selected=False, compare=None):
+MIN_VARS_K05 = 3
+
+
+def attribute(failure, run, expected_rows, *, mentioned_not_selected=False, compare=None, nvars=None):
     """run(caching: bool) -> rows   (must rebuild the query from scratch on every call)
     compare(got, exp) -> None | kind"""
     from .shard import reset_eql_state
@@ -56,6 +62,8 @@ def attribute(failure, run, expected_rows, *, mentioned_not_selected=False, comp
     if on_bad is None:
         return None  # not reproducible from a fresh build: not what the entry describes
     if off_bad is None:
+        if nvars is None or nvars < MIN_VARS_K05:
+            return None     # K05's precondition: a plain condition query over >= 3 variables
         if _only_missing(on_bad) and ev_on["known_deviation"] >= 1 and ev_on["other_deviation"] == 0:
             try:
                 got_spec, _ = fresh(True, spec_retrieve=True)
